@@ -721,8 +721,8 @@ pub fn family(name: &str, tier: Tier) -> Vec<Case> {
                 let menu = if tls == Tls::S2n { vec![Action::Forge(0), Action::Forge(1), Action::Forge(2), Action::Forge(3)] } else { vec![Action::Dup(60_000), Action::Dup(400_000)] };
                 out.push(Case { scn: s, menu, k: 1, extra: vec![], expect: Expect::Complete, injects: vec![], differential: tls == Tls::S2n, first_index: 0, adv: None, last_index: u32::MAX });
             }
-            if !quick {
-                // thorough: forgeries of the packets that follow a loss (retransmissions, the ACKs that
+            {
+                // (both tiers) forgeries of the packets that follow a loss (retransmissions, the ACKs that
                 // report the gap) - every pair (drop at i, forge at j > i) - and of a multi-stream transfer
                 // under BBR with a key update in the middle
                 let mut s = Scenario::base("forge/tls-echo-3000-after-loss");
